@@ -44,10 +44,19 @@ MUTANTS += [
     M("seed: hue normalised with fmod (keeps the sign of negative hues)", (CONV, "    return float(v.strip()) % 360\n", "    return math.fmod(float(v.strip()), 360.0)\n")),
 ]
 
+MUTANTS += [
+    M("S/L: the 0..1 test placed before the percentage test (0.4% read as 0.4)",
+      (CONV, "    if v.endswith(\"%\"):\n        return float(v[:-1]) / 100.0\n    x = float(v)\n    if 0 <= x <= 1:\n        return x\n",
+       "    is_percentage = v.endswith(\"%\")\n    x = float(v.rstrip(\"%\"))\n    if 0 <= x <= 1:\n        return x\n    if is_percentage:\n        return x / 100.0\n")),
+]
+
 BENIGN = [
     M("table reordered and upper-case hex digits",
       (NAM, "    \"aliceblue\": \"#f0f8ff\",\n    \"antiquewhite\": \"#faebd7\",\n", "    \"antiquewhite\": \"#FAEBD7\",\n    \"aliceblue\": \"#F0F8FF\",\n")),
     M("casefold instead of lower", (PAR, "        s_lower = s.lower()\n\n        # CSS named", "        s_lower = s.casefold()\n\n        # CSS named")),
     M("doubling written as c + c", (CONV, "        hex_str = \"\".join([c * 2 for c in hex_str])", "        hex_str = \"\".join([c + c for c in hex_str])")),
+    M("percentage token read with rstrip('%'), suffix test kept first",
+      (CONV, "    if v.endswith(\"%\"):\n        return float(v[:-1]) / 100.0\n    x = float(v)\n    if 0 <= x <= 1:\n        return x\n",
+       "    is_percentage = v.endswith(\"%\")\n    x = float(v.rstrip(\"%\"))\n    if is_percentage:\n        return x / 100.0\n    if 0 <= x <= 1:\n        return x\n")),
     M("temporaries renamed in the HSL core", (CONV, "        h_norm = h / 360\n\n        r = f(p, q, h_norm + 1 / 3)\n        g = f(p, q, h_norm)\n        b = f(p, q, h_norm - 1 / 3)", "        hue01 = h / 360\n\n        r = f(p, q, hue01 + 1 / 3)\n        g = f(p, q, hue01)\n        b = f(p, q, hue01 - 1 / 3)")),
 ]
